@@ -555,7 +555,10 @@ def build_fn(fs, repo, effectful, table_keys, canary=False):
     # ---- anchored inserts
     for k, insr in enumerate(fs.inserts, 1):
         insr.oid = '%s/proof#%d' % (fs.fid, k)
-        txt = '\n'.join(insr.lines).rstrip() + '\n'
+        ilines = list(insr.lines)
+        while ilines and (not ilines[-1].strip() or ilines[-1].strip().startswith('//')):
+            ilines.pop()
+        txt = '\n'.join(ilines).rstrip() + '\n'
         if insr.where == 'at_start':
             off = st[body_open][3]
             txt = '\n' + txt
